@@ -274,14 +274,21 @@ impl Graph {
             .iter()
             .to_markdown(&key.parent(), &self.markdown_options);
 
-        if self.metadata.contains_key(key) {
-            format!(
-                "---\n{}---\n\n{}",
-                self.metadata.get(key).unwrap(),
-                markdown
-            )
-        } else {
-            format!("{}", markdown)
+        self.with_front_matter(key, markdown)
+    }
+
+    // the text of a note: its front matter, when it has one, followed by its blocks
+    pub fn with_front_matter(&self, key: &Key, markdown: String) -> String {
+        match self.metadata.get(key) {
+            Some(metadata) => format!("---\n{}---\n\n{}", metadata, markdown),
+            None => markdown,
+        }
+    }
+
+    // a note that moves to another key takes its front matter along
+    pub fn copy_front_matter(&mut self, from: &Key, to: &Key) {
+        if let Some(metadata) = self.metadata.get(from).cloned() {
+            self.metadata.insert(to.clone(), metadata);
         }
     }
 
